@@ -11,9 +11,10 @@ int cmd_equil(const case_t *c);
 int cmd_order(const case_t *c);
 int cmd_args(const case_t *c);
 int cmd_hist(const case_t *c);
+int cmd_read(const case_t *c);
 
 static const struct { const char *name; cmd_fn fn; } cmds[] = {
-    { "gssv", cmd_gssv }, { "gstrf", cmd_gstrf }, { "gssvx", cmd_gssvx }, { "kern", cmd_kern }, { "equil", cmd_equil }, { "order", cmd_order }, { "args", cmd_args }, { "hist", cmd_hist },
+    { "gssv", cmd_gssv }, { "gstrf", cmd_gstrf }, { "gssvx", cmd_gssvx }, { "kern", cmd_kern }, { "equil", cmd_equil }, { "order", cmd_order }, { "args", cmd_args }, { "hist", cmd_hist }, { "read", cmd_read },
     { NULL, NULL }
 };
 
